@@ -452,7 +452,15 @@ Cfg(o, e) ==
                 !.exact = (e.s \in {"udp,bubble", "tcp,bubble"}),
                 !.slk = IF e.s \in {"udp,bubble", "tcp,bubble"} THEN 0 ELSE e.ch]
 
-Step(o, e) ==
+\* C09 demands that both numberings restart at 0 and all frames carry the new channel after a
+\* reconnect: the sender / receiver clauses that express this are attributed to C09 as well when
+\* they are flagged in a later epoch.
+EpochTags == {"C03.AckedConsecutive", "C04.AckMissing", "C04.AckSpurious", "C04.AckExact", "C04.DeliverIff"}
+Alias(o) ==
+  IF o.epoch >= 2 /\ (\E i \in 1..Len(o.bad) : o.bad[i] \in EpochTags) /\ ~(\E i \in 1..Len(o.bad) : o.bad[i] = "C09.EpochFresh")
+  THEN [o EXCEPT !.bad = Append(@, "C09.EpochFresh")] ELSE o
+
+Step0(o, e) ==
   IF e.k = "Cfg" THEN Cfg(o, e)
   ELSE IF e.k = "RunEnd" THEN [o EXCEPT !.bad = << >>, !.note = << >>]
   ELSE
@@ -507,4 +515,6 @@ Step(o, e) ==
     [] e.k = "Race"      -> Flag(oc, "C10.NoRace")
     [] e.k = "Hang"      -> Flag(oc, "C10.NoHang")
     [] OTHER -> oc
+
+Step(o, e) == Alias(Step0(o, e))
 =============================================================================
